@@ -30,7 +30,7 @@ class ComponentLevel5( ComponentLevel4 ):
 
   def _handle_decorated_methods( s ):
 
-    for x in s.__class__.__dict__:
+    for x in s._user_class_attributes():
       method = getattr( s, x )
       # We identify decorated method port here
       if hasattr( method, "_callee_port" ):
